@@ -45,7 +45,9 @@ def check_case(case):
         finally:
             c05.WANT = old
         for sig, det in r5.viol:
-            if len(sig) > 1 and sig[1].startswith("C02."):
+            if len(sig) > 1 and sig[1] == "C02.trise":
+                r.v(tuple(sig[1:]), det)          # keeps the signature of the recorded finding KF-04 (rise of a load with loss=False)
+            elif len(sig) > 1 and sig[1].startswith("C02."):
                 r.v(("C02.after-edit",) + tuple(sig[1:]), det)
             elif sig[0] == "C05.after-edit-solve-raises":
                 r.v(("C02.after-edit", "solve-raises") + tuple(sig[1:]), det)
